@@ -212,6 +212,18 @@ type LeakReport struct {
 // BEFORE the bubble ends (the caller should record the verdict and flush stats, because such a
 // bubble cannot end and the runtime will abort the process with a deadlock report).
 func Bubble(t *testing.T, settle time.Duration, f func(), onLeak func(LeakReport)) {
+	reported := false
+	defer func() {
+		// A bubble whose goroutines are blocked for ever cannot end: synctest panics ("deadlock: main bubble goroutine
+		// has exited but blocked goroutines remain") when its root function returns. Once the leak has been handed to
+		// onLeak (with the goroutine dump) that panic carries no further information and would only replace the
+		// caller's verdict by a bare stack trace.
+		if reported {
+			if r := recover(); r != nil && !strings.Contains(fmt.Sprint(r), "deadlock") {
+				panic(r)
+			}
+		}
+	}()
 	synctest.Test(t, func(t *testing.T) {
 		f()
 		if settle > 0 {
@@ -222,6 +234,7 @@ func Bubble(t *testing.T, settle time.Duration, f func(), onLeak func(LeakReport
 			return
 		}
 		if rep := leaked(); rep.Count > 0 {
+			reported = true
 			onLeak(rep)
 		}
 	})
